@@ -667,6 +667,13 @@ theorem readFile_fileBytes (v : Vtf) (minor sheetVer : Nat) (asw : Bool) (lowByt
 
 /-! ## the image data -/
 
+theorem forall2_imp {α β : Type} {R S : α → β → Prop} (h : ∀ a b, R a b → S a b) :
+    ∀ {l₁ : List α} {l₂ : List β}, List.Forall₂ R l₁ l₂ → List.Forall₂ S l₁ l₂ := by
+  intro l₁ l₂ hf
+  induction hf with
+  | nil => exact .nil
+  | cons hab _ ih => exact .cons (h _ _ hab) ih
+
 theorem mapM_ok_forall2 {α β : Type} (f : α → Except Err β) :
     ∀ (l : List α) (r : List β), l.mapM f = .ok r → List.Forall₂ (fun a b => f a = .ok b) l r := by
   intro l
@@ -757,5 +764,215 @@ theorem layout_slices (fsz : Nat → Nat → Nat) (dims : Nat → Nat × Nat) :
         simpa [List.append_assoc] using slice_mid' pre b (bs'.flatten ++ post) b.length rfl
       · have := ih bs' (pre ++ b) post file hrest (by rw [hfile]; simp [List.append_assoc])
         simpa [hb] using this
+
+theorem layout_slices_keys (fsz : Nat → Nat → Nat) (dims : Nat → Nat × Nat) (Q : Key → List Nat → Prop) :
+    ∀ (ks : List Key) (bs : List (List Nat)) (pre post file : List Nat),
+      List.Forall₂ (fun k b => b.length = fsz (dims k.2.2).1 (dims k.2.2).2 ∧ Q k b) ks bs →
+      file = pre ++ (bs.flatten ++ post) →
+      List.Forall₂ (fun (e : Key × Nat × Nat × Nat) k => e.1 = k ∧ (e.2.1, e.2.2.1) = dims k.2.2 ∧
+          ∃ b, Q k b ∧ slice file e.2.2.2 (fsz e.2.1 e.2.2.1) = b)
+        (layoutFrom fsz dims ks pre.length) ks := by
+  intro ks
+  induction ks with
+  | nil => intro bs pre post file h _; exact .nil
+  | cons k ks ih =>
+    intro bs pre post file h hfile
+    cases h with
+    | cons hb hrest =>
+      rename_i b bs'
+      simp only [layoutFrom]
+      refine .cons ⟨rfl, rfl, b, hb.2, ?_⟩ ?_
+      · simp only []
+        rw [hfile, ← hb.1]
+        simpa [List.append_assoc] using slice_mid' pre b (bs'.flatten ++ post) b.length rfl
+      · have := ih bs' (pre ++ b) post file hrest (by rw [hfile]; simp [List.append_assoc])
+        simpa [hb.1] using this
+
+theorem resTable_length (v : Vtf) (minor sheetVer lowLen : Nat) (hm : minor ≥ 3)
+    (hwf : resPartWF v minor sheetVer lowLen = true) :
+    (resTable v minor sheetVer lowLen).length = 15 + 8 * resCount v := by
+  simp only [resPartWF, Bool.and_eq_true, decide_eq_true_eq] at hwf
+  obtain ⟨⟨⟨⟨⟨hres, _⟩, _⟩, _⟩, hoff⟩, _⟩ := hwf
+  have hLow : lowOff v minor sheetVer
+      = headerSize v minor + ((resBlocks v.res).flatten.length + (sheetBlock v minor sheetVer).length) := by
+    simp [lowOff, dataBlocks, hm]
+  have hSheetOff : sheetOff v minor = headerSize v minor + (resBlocks v.res).flatten.length := by
+    simp [sheetOff, hm]
+  have hE1wf : (entriesFrom (headerSize v minor) v.res).all entryWF = true :=
+    entriesFrom_wf v.res _ hres (by omega)
+  have hAllwf : (allEntries v minor sheetVer lowLen).all entryWF = true := by
+    simp only [allEntries, List.all_append, Bool.and_eq_true]
+    refine ⟨hE1wf, ?_, ?_⟩
+    · simp [entryWF, idLow, idHigh]; omega
+    · split
+      · simp [entryWF, idSheet]; omega
+      · rfl
+  rw [resTable_eq v minor sheetVer lowLen hm]
+  simp [entries_bytes_length _ hAllwf, allEntries_length]; omega
+
+theorem prefix_length (v : Vtf) (minor sheetVer : Nat) (asw : Bool) (lowLen : Nat)
+    (hwf : fileWF v minor sheetVer lowLen = true) :
+    ((hdrFields v minor asw).flatten ++ resTable v minor sheetVer lowLen ++
+      dataBlocks v minor sheetVer).length = lowOff v minor sheetVer := by
+  simp only [fileWF, hdrWF, Bool.and_eq_true, decide_eq_true_eq, beq_iff_eq] at hwf
+  obtain ⟨⟨⟨⟨⟨⟨⟨⟨⟨⟨⟨⟨⟨⟨⟨_, _⟩, _⟩, _⟩, _⟩, _⟩, hrl⟩, hbl⟩, _⟩, _⟩, _⟩, _⟩, _⟩, _⟩, _⟩, hresWF⟩ := hwf
+  simp only [List.length_append, hdr_length v minor asw hrl hbl, lowOff, headerSize]
+  by_cases hm : minor ≥ 3
+  · rw [resTable_length v minor sheetVer lowLen hm hresWF]
+    simp [hm]; omega
+  · simp [hm, resTable]
+
+def lowLen (v : Vtf) : Nat := frameSize (fmtOf v.lowFmt) v.low.w v.low.h
+
+/-- every frame that will be written has the size the reader computes from the header. -/
+def framesWF (v : Vtf) (minor : Nat) : Bool :=
+  (fileKeys v.mipCount v.frameCount (depthSeq v.flags minor v.depth)).all fun k =>
+    match lookupFrame v.frames k with
+    | some fr => fr.w == (readerDims v.width v.height k.2.2).1 && fr.h == (readerDims v.width v.height k.2.2).2
+    | none => true
+
+/-- **Well-formedness of an object about to be written** (decidable): `fileWF`, frame sizes as the
+reader will compute them, depth at least 1 (and exactly 1 before 7.2). -/
+def saveWF (v : Vtf) (minor sheetVer : Nat) : Bool :=
+  fileWF v minor sheetVer (lowLen v) && framesWF v minor && decide (1 ≤ v.depth) &&
+    decide (minor < 2 → v.depth = 1)
+
+theorem load_dims (fr : FrameM) : fr.load.w = fr.w ∧ fr.load.h = fr.h := by
+  unfold FrameM.load; split <;> exact ⟨rfl, rfl⟩
+
+theorem load_data_some (fr : FrameM) : ∃ d, fr.load.data = some d := by
+  unfold FrameM.load; split <;> exact ⟨_, rfl⟩
+
+theorem lowLen_none (v : Vtf) (h : v.lowFmt = fmtNone) : lowLen v = 0 := by
+  simp [lowLen, h, fmtNone, fmtOf, formats, frameSize]
+
+theorem assemble_roundtrip (v : Vtf) (minor sheetVer : Nat) (asw : Bool) (file : List Nat)
+    (h : assemble v minor sheetVer asw = .ok file) (hwf : saveWF v minor sheetVer = true) :
+    readFile file = .ok (viewOf v minor sheetVer (lowLen v)) ∧
+    (v.lowFmt ≠ fmtNone → slice file (lowOff v minor sheetVer) (lowLen v)
+        = saveImg (codecOf v.lowFmt) (v.low.load.data.getD [])) ∧
+    List.Forall₂ (fun (e : Key × Nat × Nat × Nat) k => e.1 = k ∧
+        (e.2.1, e.2.2.1) = readerDims v.width v.height k.2.2 ∧
+        ∃ fr, frameFor v k = .ok fr ∧ (fr.w, fr.h) = readerDims v.width v.height k.2.2 ∧
+          slice file e.2.2.2 (frameSize (fmtOf v.fmt) e.2.1 e.2.2.1)
+            = saveImg (codecOf v.fmt) (fr.load.data.getD []))
+      (viewOf v minor sheetVer (lowLen v)).frames
+      (fileKeys v.mipCount v.frameCount (depthSeq v.flags minor v.depth)) := by
+  simp only [saveWF, Bool.and_eq_true, decide_eq_true_eq] at hwf
+  obtain ⟨⟨⟨hfw, hfr⟩, hd1⟩, hd2⟩ := hwf
+  have hvd : viewDepth v minor = v.depth := by
+    unfold viewDepth
+    split
+    · rw [if_neg (by omega)]
+    · exact (hd2 (by omega)).symm
+  -- take `assemble` apart
+  unfold assemble at h
+  cases hlowE : encodeLow v with
+  | error e => simp [hlowE] at h
+  | ok lowBytes =>
+    cases hblk : (fileKeys v.mipCount v.frameCount (depthSeq v.flags minor v.depth)).mapM (encodeKey v) with
+    | error e => simp [hlowE, hblk] at h
+    | ok blocks =>
+      simp only [hlowE, hblk, Except.ok.injEq] at h
+      subst h
+      unfold encodeLow at hlowE
+      -- the thumbnail
+      have hlowlen : lowBytes.length = lowLen v ∧ (v.lowFmt ≠ fmtNone →
+          lowBytes = saveImg (codecOf v.lowFmt) (v.low.load.data.getD [])) := by
+        by_cases hn : v.lowFmt = fmtNone
+        · simp only [hn, ne_eq, not_true_eq_false, if_false, Except.ok.injEq] at hlowE
+          subst hlowE
+          exact ⟨(lowLen_none v hn).symm, fun h => absurd hn h⟩
+        · simp only [ne_eq, hn, not_false_eq_true, if_true] at hlowE
+          have E := encodeFrame_ok _ _ _ hlowE
+          obtain ⟨d, hdd⟩ := load_data_some v.low
+          refine ⟨by rw [E.2.2.2, (load_dims v.low).1, (load_dims v.low).2]; rfl, fun _ => ?_⟩
+          rw [E.1, hdd]; rfl
+      have hwf' : fileWF v minor sheetVer lowBytes.length = true := by rw [hlowlen.1]; exact hfw
+      have hread := readFile_fileBytes v minor sheetVer asw lowBytes blocks hwf'
+        (fun _ => hlowlen.1)
+      rw [hlowlen.1] at hread
+      refine ⟨hread, ?_, ?_⟩
+      · intro hn
+        rw [← (hlowlen.2 hn), ← hlowlen.1]
+        have : fileBytes v minor sheetVer asw lowBytes blocks
+            = ((hdrFields v minor asw).flatten ++ resTable v minor sheetVer lowBytes.length ++
+                dataBlocks v minor sheetVer) ++ (lowBytes ++ blocks.flatten) := by
+          simp [fileBytes, List.append_assoc]
+        rw [this]
+        have hl := prefix_length v minor sheetVer asw lowBytes.length hwf'
+        rw [← hl]
+        exact slice_mid' _ _ _ _ rfl
+      · -- the frames
+        have hF := mapM_ok_forall2 _ _ _ hblk
+        have hF' : List.Forall₂ (fun (k : Key) b =>
+            b.length = frameSize (fmtOf v.fmt) (readerDims v.width v.height k.2.2).1
+              (readerDims v.width v.height k.2.2).2 ∧
+            ∃ fr, frameFor v k = .ok fr ∧ (fr.w, fr.h) = readerDims v.width v.height k.2.2 ∧
+              b = saveImg (codecOf v.fmt) (fr.load.data.getD []))
+            (fileKeys v.mipCount v.frameCount (depthSeq v.flags minor v.depth)) blocks := by
+          have hmem : ∀ k ∈ fileKeys v.mipCount v.frameCount (depthSeq v.flags minor v.depth),
+              ∀ fr, frameFor v k = .ok fr → (fr.w, fr.h) = readerDims v.width v.height k.2.2 := by
+            intro k hk fr hfk
+            have hw := List.all_eq_true.mp hfr k hk
+            unfold frameFor at hfk
+            cases hlk : lookupFrame v.frames k with
+            | some fr0 =>
+              simp only [hlk, pure, Except.pure, Except.ok.injEq] at hfk
+              subst hfk
+              simp only [hlk, Bool.and_eq_true, beq_iff_eq] at hw
+              exact Prod.ext hw.1 hw.2
+            | none =>
+              simp only [hlk] at hfk
+              split at hfk
+              · simp only [pure, Except.pure, Except.ok.injEq] at hfk
+                subst hfk; rfl
+              · simp [throw, throwThe, MonadExceptOf.throw] at hfk
+          have : ∀ (ks : List Key) (bs : List (List Nat)),
+              (∀ k ∈ ks, k ∈ fileKeys v.mipCount v.frameCount (depthSeq v.flags minor v.depth)) →
+              List.Forall₂ (fun k b => encodeKey v k = Except.ok b) ks bs →
+              List.Forall₂ (fun (k : Key) b =>
+                b.length = frameSize (fmtOf v.fmt) (readerDims v.width v.height k.2.2).1
+                  (readerDims v.width v.height k.2.2).2 ∧
+                ∃ fr, frameFor v k = .ok fr ∧ (fr.w, fr.h) = readerDims v.width v.height k.2.2 ∧
+                  b = saveImg (codecOf v.fmt) (fr.load.data.getD [])) ks bs := by
+            intro ks bs hsub hf2
+            induction hf2 with
+            | nil => exact .nil
+            | @cons k b ks' bs' hkb _ ih =>
+              refine .cons ?_ (ih (fun k' hk' => hsub k' (by simp [hk'])))
+              unfold encodeKey at hkb
+              cases hfk : frameFor v k with
+              | error e => simp [hfk] at hkb
+              | ok fr =>
+                simp only [hfk] at hkb
+                have E := encodeFrame_ok _ _ _ hkb
+                have hd := hmem k (hsub k (by simp)) fr hfk
+                obtain ⟨d, hdd⟩ := load_data_some fr
+                refine ⟨?_, fr, rfl, hd, ?_⟩
+                · rw [E.2.2.2, (load_dims fr).1, (load_dims fr).2, ← hd]
+                · rw [E.1, hdd]; rfl
+          exact this _ _ (fun _ hk => hk) hF
+        have hpre : fileBytes v minor sheetVer asw lowBytes blocks
+            = ((hdrFields v minor asw).flatten ++ resTable v minor sheetVer lowBytes.length ++
+                dataBlocks v minor sheetVer ++ lowBytes) ++ (blocks.flatten ++ []) := by
+          simp [fileBytes, List.append_assoc]
+        have hL := layout_slices_keys (frameSize (fmtOf v.fmt)) (readerDims v.width v.height)
+          (fun k b => ∃ fr, frameFor v k = .ok fr ∧ (fr.w, fr.h) = readerDims v.width v.height k.2.2 ∧
+              b = saveImg (codecOf v.fmt) (fr.load.data.getD []))
+          _ _ _ [] _ hF' hpre
+        have hplen : ((hdrFields v minor asw).flatten ++ resTable v minor sheetVer lowBytes.length ++
+            dataBlocks v minor sheetVer ++ lowBytes).length = lowOff v minor sheetVer + lowLen v := by
+          rw [List.length_append, prefix_length v minor sheetVer asw lowBytes.length hwf', hlowlen.1]
+        rw [hplen] at hL
+        have hframes : (viewOf v minor sheetVer (lowLen v)).frames
+            = layoutFrom (frameSize (fmtOf v.fmt)) (readerDims v.width v.height)
+                (fileKeys v.mipCount v.frameCount (depthSeq v.flags minor v.depth))
+                (lowOff v minor sheetVer + lowLen v) := by
+          simp [viewOf, hvd]
+        rw [hframes]
+        refine forall2_imp ?_ hL
+        rintro e k ⟨h1, h2, b, ⟨fr, hfk, hdim, hb⟩, hsl⟩
+        exact ⟨h1, h2, fr, hfk, hdim, by rw [hsl, hb]⟩
 
 end C15
